@@ -1,0 +1,18 @@
+//go:build verif
+
+// Contracts for package hash (see /repo/zz_contracts_verif.go).
+package hash
+
+//@ func Empty
+//@   pure
+//@   ensures result.0 == "" && result.1 == nil                      [C06]
+
+//@ func Name
+//@   trusted
+//@   pure
+//@   ensures result.0 == onceKey(arg0) && result.1 == nil           [C06]
+
+//@ func Hash
+//@   trusted
+//@   pure
+//@   ensures result.0 == changedKey(arg0)                           [C06]
